@@ -180,6 +180,9 @@ class ModbusTransactionManager(object):
                                 mbap.get('length') == expected_response_length):
                                 break
                             _logger.debug("Retry on invalid - {}".format(retries))
+                            # what else this exchange still delivers must not
+                            # be read as the answer to the retransmission
+                            self.client.close()
                         if hasattr(self.client, "state"):
                             _logger.debug("RESETTING Transaction state to 'IDLE' for retry")
                             self.client.state = ModbusTransactionState.IDLE
